@@ -27,7 +27,7 @@ CHECK_DEADLOCK FALSE
 def repl_twins(rep, wd, cases, limit):
     """Drive the real binary through stdin (what the REPL does: compile then run per line)."""
     tdir = os.path.join(vlib.WORK, "repo-target")
-    p = subprocess.run(["cargo", "build", "--offline", "--quiet", "--manifest-path", "/repo/Cargo.toml", "--target-dir", tdir],
+    p = subprocess.run(["cargo", "build", "--offline", "--quiet", "--manifest-path", os.path.join(vlib.REPO, "Cargo.toml"), "--target-dir", tdir],
                        stdout=subprocess.PIPE, stderr=subprocess.STDOUT, text=True,
                        env=dict(os.environ, RUSTFLAGS="-Awarnings", CARGO_NET_OFFLINE="true"))
     if p.returncode != 0:
